@@ -774,6 +774,39 @@ func vRateFor(deposit int64, blocks int) int64 {
 
 func vScenarios() []vScenario {
 	return []vScenario{
+		// one provider holds the leases (gseq 1, oseq 2) and (gseq 2, oseq 1) of a
+		// deployment - the sequence numbers of one are the other's, swapped -
+		// and each is then acted on by itself
+		{"mirrored-lease-ids", func(g *vGen) {
+			t, p := g.h.actor("tenant", g.r.Intn(3)), g.h.actor("provider", g.r.Intn(3))
+			price := g.unitPrice()
+			id, ok := g.tplDeploy(1, t, g.minDep()*2, []vUnitSpec{{price, 1}}, []vUnitSpec{{price, 1}})
+			if !ok {
+				return
+			}
+			b11, _ := g.tplBid(g.r.Intn(2), p, vOrderID(id, 1, 1), price)
+			g.h.DoNote("tpl/create-lease-1-1", g.r.Intn(2), t, &mtypes.MsgCreateLease{BidID: b11})
+			b21, _ := g.tplBid(g.r.Intn(2), p, vOrderID(id, 2, 1), price)
+			g.h.DoNote("tpl/create-lease-2-1", g.r.Intn(2), t, &mtypes.MsgCreateLease{BidID: b21})
+			g.h.DoNote("tpl/close-lease-1-1", g.r.Range(1, 3), t, &mtypes.MsgCloseLease{LeaseID: b11.LeaseID()})
+			b12, _ := g.tplBid(g.r.Intn(2), p, vOrderID(id, 1, 2), price)
+			g.h.DoNote("tpl/create-lease-1-2", g.r.Intn(2), t, &mtypes.MsgCreateLease{BidID: b12})
+			first, second := b21, b12
+			if g.r.Bool() {
+				first, second = b12, b21
+			}
+			switch g.r.Intn(3) {
+			case 0:
+				g.h.DoNote("tpl/close-lease-mirrored", g.r.Range(1, 3), t, &mtypes.MsgCloseLease{LeaseID: first.LeaseID()})
+			case 1:
+				g.h.DoNote("tpl/close-bid-mirrored", g.r.Range(1, 3), p, &mtypes.MsgCloseBid{BidID: first})
+			case 2:
+				g.h.DoNote("tpl/close-group-mirrored", g.r.Range(1, 3), t, &dtypes.MsgCloseGroup{ID: first.GroupID()})
+			}
+			g.h.DoNote("tpl/withdraw-the-other", g.r.Range(1, 3), p, &mtypes.MsgWithdrawLease{LeaseID: second.LeaseID()})
+			g.h.DoNote("tpl/close-the-other", g.r.Intn(3), t, &mtypes.MsgCloseLease{LeaseID: second.LeaseID()})
+			g.h.DoNote("tpl/close-deployment", g.r.Intn(3), t, &dtypes.MsgCloseDeployment{ID: id})
+		}},
 		// actions that name an object in a terminal state (lost / closed) next
 		// to live objects of other parties: every one must be refused or stay
 		// inside what it names
